@@ -33,11 +33,12 @@ pub fn __string_with_capacity(s: &str) -> (r: String) ensures r@ == Seq::<char>:
 /// The contract of parse_unicode_hex / parse_unicode_oct, shared VERBATIM by the call-site declaration (`__parse_unicode_hex`, used where the
 /// callers hand over `&mut chars`) and by the unit that verifies the real function body (contracts/parse.parse_unicode_hex.vspec):
 /// consumes the next `length` characters (fewer at the end of input); when these are `length` hex digits the result is the
-/// character with that code point, or an error when the value is not a Unicode scalar value.  Nothing is required otherwise.
+/// character with that code point, or an error when the value is not a Unicode scalar value (stated for up to eight digits, which is
+/// what fits `u32`; no precondition: a call with another length is not a defect).  Nothing is required otherwise.
 pub open spec fn puh_post(length: usize, rest0: Seq<char>, pos0: nat, rest1: Seq<char>, pos1: nat, r: Result<char, ParseUnicodeError>) -> bool {
     ({ let n = if rest0.len() < length { rest0.len() as int } else { length as int };
        rest1 == rest0.skip(n) && pos1 == pos0 + n })
-    && ((rest0.len() >= length && hex_val(rest0.subrange(0, length as int)) is Some) ==>
+    && ((length <= 8 && rest0.len() >= length && hex_val(rest0.subrange(0, length as int)) is Some) ==>
             ({ let v = hex_val(rest0.subrange(0, length as int))->Some_0;
                if is_scalar(v) { r == Ok::<char, ParseUnicodeError>(chr(v)) } else { r is Err } }))
 }
@@ -53,7 +54,6 @@ pub open spec fn puo_post(first_char: char, rest0: Seq<char>, pos0: nat, rest1: 
 /// signature is instantiated by the stand-in iterator).  Their contract is the one the real bodies are verified against.
 #[verifier::external_body]
 pub fn __parse_unicode_hex(length: usize, chars: &mut Enumerate<Chars>) -> (r: Result<char, ParseUnicodeError>)
-    requires length == 2 || length == 4 || length == 8
     ensures puh_post(length, old(chars).rest(), old(chars).pos(), final(chars).rest(), final(chars).pos(), r)
 { unimplemented!() }
 #[verifier::external_body]
